@@ -1639,6 +1639,13 @@ let modA i f =
 let whenM b m0 =
   if b then m0 else ret ()
 
+(** val on_err : 'a1 mW -> (w -> w) -> 'a1 mW **)
+
+let on_err m0 h s =
+  match m0 s with
+  | Ok (a, s') -> Ok (a, s')
+  | Err (e, s') -> Err (e, (h s'))
+
 (** val is_locked : w -> bool **)
 
 let is_locked s =
@@ -1694,6 +1701,29 @@ let unlockM b =
           w_log = x.w_log })) (fun _ -> l') s)
     | None -> fail EUnbalanced)
 
+(** val release_bit : nat -> w -> w **)
+
+let release_bit b s =
+  match lock_unlock s.w_lock b with
+  | Some l' ->
+    set (fun w0 -> w0.w_lock) (fun f ->
+      let l = fun r -> f r.w_lock in
+      (fun x -> { w_cfg = x.w_cfg; w_reg = x.w_reg; w_pool = x.w_pool;
+      w_index = x.w_index; w_istarget = x.w_istarget; w_archs = x.w_archs;
+      w_tables = x.w_tables; w_relarchs = x.w_relarchs; w_compindex =
+      x.w_compindex; w_archcount = x.w_archcount; w_version = x.w_version;
+      w_cheap = x.w_cheap; w_centries = x.w_centries; w_cpool = x.w_cpool;
+      w_lock = (l x); w_obs = x.w_obs; w_olists = x.w_olists; w_oagg =
+      x.w_oagg; w_opool = x.w_opool; w_ototal = x.w_ototal; w_omax =
+      x.w_omax; w_filters = x.w_filters; w_queries = x.w_queries; w_res =
+      x.w_res; w_issued = x.w_issued; w_log = x.w_log })) (fun _ -> l') s
+  | None -> s
+
+(** val with_deferred_unlock : nat -> 'a1 mW -> 'a1 mW **)
+
+let with_deferred_unlock b m0 =
+  on_err m0 (release_bit b)
+
 (** val alive : w -> ent -> bool **)
 
 let alive s e =
@@ -1725,6 +1755,12 @@ let rec find_exact s tabs rels =
         | MPanic e -> Err (e, s))
      | None -> Err (EIndex, s))
 
+(** val rels_distinct : rel list -> bool **)
+
+let rec rels_distinct = function
+| [] -> true
+| r :: rest -> (&&) (negb (memb (fst r) (map fst rest))) (rels_distinct rest)
+
 (** val arch_get_table : arch -> rel list -> nat option mW **)
 
 let arch_get_table a rels =
@@ -1735,15 +1771,16 @@ let arch_get_table a rels =
     then ret (Some t0)
     else bind (guard (negb (Nat.ltb (length rels) a.a_numrel)) ERelUnspec)
            (fun _ ->
-           match rels with
-           | [] -> fail EIndex
-           | r :: _ ->
-             let (c, tg) = r in
-             bind (of_opt (index_of c a.a_comps) EIndex) (fun idx ->
-               bind (of_opt (nth_error a.a_reltabs idx) EIndex) (fun m0 ->
-                 match afind (fst tg) m0 with
-                 | Some tabs -> (fun s -> find_exact s tabs rels)
-                 | None -> ret None)))
+           bind (guard (rels_distinct rels) ERelUnspec) (fun _ ->
+             match rels with
+             | [] -> fail EIndex
+             | r :: _ ->
+               let (c, tg) = r in
+               bind (of_opt (index_of c a.a_comps) EIndex) (fun idx ->
+                 bind (of_opt (nth_error a.a_reltabs idx) EIndex) (fun m0 ->
+                   match afind (fst tg) m0 with
+                   | Some tabs -> (fun s -> find_exact s tabs rels)
+                   | None -> ret None))))
 
 (** val arch_get_tables : arch -> rel list -> nat list option **)
 
@@ -2107,6 +2144,27 @@ let rec place_targets a rels targets =
      | Some idx -> place_targets a rest (upd idx tg targets)
      | None -> None)
 
+(** val register_targets : rel list -> unit mW **)
+
+let register_targets rels =
+  forM_ rels (fun r ->
+    bind get (fun s ->
+      bind (guard (Nat.ltb (fst (snd r)) (length s.w_istarget)) EIndex)
+        (fun _ ->
+        modify (fun s0 ->
+          set (fun w0 -> w0.w_istarget) (fun f ->
+            let l = fun r0 -> f r0.w_istarget in
+            (fun x -> { w_cfg = x.w_cfg; w_reg = x.w_reg; w_pool = x.w_pool;
+            w_index = x.w_index; w_istarget = (l x); w_archs = x.w_archs;
+            w_tables = x.w_tables; w_relarchs = x.w_relarchs; w_compindex =
+            x.w_compindex; w_archcount = x.w_archcount; w_version =
+            x.w_version; w_cheap = x.w_cheap; w_centries = x.w_centries;
+            w_cpool = x.w_cpool; w_lock = x.w_lock; w_obs = x.w_obs;
+            w_olists = x.w_olists; w_oagg = x.w_oagg; w_opool = x.w_opool;
+            w_ototal = x.w_ototal; w_omax = x.w_omax; w_filters =
+            x.w_filters; w_queries = x.w_queries; w_res = x.w_res; w_issued =
+            x.w_issued; w_log = x.w_log })) (upd (fst (snd r)) true) s0))))
+
 (** val check_rel : rel -> unit mW **)
 
 let check_rel r =
@@ -2120,76 +2178,85 @@ let create_table aid rels =
   bind (getA aid) (fun a ->
     bind (guard (negb (Nat.ltb (length rels) a.a_numrel)) ERelUnspec)
       (fun _ ->
-      bind
-        (of_opt (place_targets a rels (repeat zero_ent (length a.a_comps)))
-          EIndex) (fun targets ->
-        bind (forM_ rels check_rel) (fun _ ->
-          bind get (fun s ->
-            bind
-              (match rev a.a_free with
-               | [] ->
-                 let tid = length s.w_tables in
-                 let cap =
-                   if arch_has_rels a
-                   then s.w_cfg.cf_caprel
-                   else s.w_cfg.cf_cap
-                 in
-                 let kinds = map (kind_of s) a.a_comps in
-                 bind
-                   (modify (fun s0 ->
-                     set (fun w0 -> w0.w_tables) (fun f ->
-                       let l = fun r -> f r.w_tables in
-                       (fun x -> { w_cfg = x.w_cfg; w_reg = x.w_reg; w_pool =
-                       x.w_pool; w_index = x.w_index; w_istarget =
-                       x.w_istarget; w_archs = x.w_archs; w_tables = 
-                       (l x); w_relarchs = x.w_relarchs; w_compindex =
-                       x.w_compindex; w_archcount = x.w_archcount;
-                       w_version = x.w_version; w_cheap = x.w_cheap;
-                       w_centries = x.w_centries; w_cpool = x.w_cpool;
-                       w_lock = x.w_lock; w_obs = x.w_obs; w_olists =
-                       x.w_olists; w_oagg = x.w_oagg; w_opool = x.w_opool;
-                       w_ototal = x.w_ototal; w_omax = x.w_omax; w_filters =
-                       x.w_filters; w_queries = x.w_queries; w_res = x.w_res;
-                       w_issued = x.w_issued; w_log = x.w_log })) (fun l ->
-                       app l ((new_table aid a kinds cap targets rels) :: []))
-                       s0)) (fun _ -> ret tid)
-               | f :: _ ->
-                 bind
-                   (modA aid (fun a0 ->
-                     set (fun a1 -> a1.a_free) (fun f0 ->
-                       let l = fun r -> f0 r.a_free in
-                       (fun x -> { a_mask = x.a_mask; a_comps = x.a_comps;
-                       a_isrel = x.a_isrel; a_tables = x.a_tables; a_free =
-                       (l x); a_reltabs = x.a_reltabs; a_tgttabs =
-                       x.a_tgttabs; a_numrel = x.a_numrel })) (fun l ->
-                       firstn (sub (length l) (S O)) l) a0)) (fun _ ->
-                   bind
-                     (modT f (fun t ->
-                       set (fun t0 -> t0.t_free) (fun f0 ->
-                         let b = fun r -> f0 r.t_free in
-                         (fun x -> { t_arch = x.t_arch; t_ids = x.t_ids;
-                         t_kinds = x.t_kinds; t_len = x.t_len; t_cap =
-                         x.t_cap; t_free = (b x); t_ents = x.t_ents; t_cols =
-                         x.t_cols; t_targets = x.t_targets; t_rels =
-                         x.t_rels })) (fun _ -> false)
-                         (set (fun t0 -> t0.t_targets) (fun f0 ->
-                           let l = fun r -> f0 r.t_targets in
-                           (fun x -> { t_arch = x.t_arch; t_ids = x.t_ids;
-                           t_kinds = x.t_kinds; t_len = x.t_len; t_cap =
-                           x.t_cap; t_free = x.t_free; t_ents = x.t_ents;
-                           t_cols = x.t_cols; t_targets = (l x); t_rels =
-                           x.t_rels })) (fun _ -> targets)
-                           (set (fun t0 -> t0.t_rels) (fun f0 ->
-                             let l = fun r -> f0 r.t_rels in
+      bind (guard (rels_distinct rels) ERelUnspec) (fun _ ->
+        bind
+          (of_opt (place_targets a rels (repeat zero_ent (length a.a_comps)))
+            EIndex) (fun targets ->
+          bind (forM_ rels check_rel) (fun _ ->
+            bind (register_targets rels) (fun _ ->
+              bind get (fun s ->
+                bind
+                  (match rev a.a_free with
+                   | [] ->
+                     let tid = length s.w_tables in
+                     let cap =
+                       if arch_has_rels a
+                       then s.w_cfg.cf_caprel
+                       else s.w_cfg.cf_cap
+                     in
+                     let kinds = map (kind_of s) a.a_comps in
+                     bind
+                       (modify (fun s0 ->
+                         set (fun w0 -> w0.w_tables) (fun f ->
+                           let l = fun r -> f r.w_tables in
+                           (fun x -> { w_cfg = x.w_cfg; w_reg = x.w_reg;
+                           w_pool = x.w_pool; w_index = x.w_index;
+                           w_istarget = x.w_istarget; w_archs = x.w_archs;
+                           w_tables = (l x); w_relarchs = x.w_relarchs;
+                           w_compindex = x.w_compindex; w_archcount =
+                           x.w_archcount; w_version = x.w_version; w_cheap =
+                           x.w_cheap; w_centries = x.w_centries; w_cpool =
+                           x.w_cpool; w_lock = x.w_lock; w_obs = x.w_obs;
+                           w_olists = x.w_olists; w_oagg = x.w_oagg;
+                           w_opool = x.w_opool; w_ototal = x.w_ototal;
+                           w_omax = x.w_omax; w_filters = x.w_filters;
+                           w_queries = x.w_queries; w_res = x.w_res;
+                           w_issued = x.w_issued; w_log = x.w_log }))
+                           (fun l ->
+                           app l
+                             ((new_table aid a kinds cap targets rels) :: []))
+                           s0)) (fun _ -> ret tid)
+                   | f :: _ ->
+                     bind
+                       (modA aid (fun a0 ->
+                         set (fun a1 -> a1.a_free) (fun f0 ->
+                           let l = fun r -> f0 r.a_free in
+                           (fun x -> { a_mask = x.a_mask; a_comps =
+                           x.a_comps; a_isrel = x.a_isrel; a_tables =
+                           x.a_tables; a_free = (l x); a_reltabs =
+                           x.a_reltabs; a_tgttabs = x.a_tgttabs; a_numrel =
+                           x.a_numrel })) (fun l ->
+                           firstn (sub (length l) (S O)) l) a0)) (fun _ ->
+                       bind
+                         (modT f (fun t ->
+                           set (fun t0 -> t0.t_free) (fun f0 ->
+                             let b = fun r -> f0 r.t_free in
                              (fun x -> { t_arch = x.t_arch; t_ids = x.t_ids;
                              t_kinds = x.t_kinds; t_len = x.t_len; t_cap =
-                             x.t_cap; t_free = x.t_free; t_ents = x.t_ents;
+                             x.t_cap; t_free = (b x); t_ents = x.t_ents;
                              t_cols = x.t_cols; t_targets = x.t_targets;
-                             t_rels = (l x) })) (fun _ -> rels) t))))
-                     (fun _ -> ret f))) (fun tid ->
-              bind (getT tid) (fun t ->
-                bind (modA aid (fun a0 -> arch_add_table a0 tid t)) (fun _ ->
-                  bind (cache_add_table tid t a.a_mask) (fun _ -> ret tid)))))))))
+                             t_rels = x.t_rels })) (fun _ -> false)
+                             (set (fun t0 -> t0.t_targets) (fun f0 ->
+                               let l = fun r -> f0 r.t_targets in
+                               (fun x -> { t_arch = x.t_arch; t_ids =
+                               x.t_ids; t_kinds = x.t_kinds; t_len = x.t_len;
+                               t_cap = x.t_cap; t_free = x.t_free; t_ents =
+                               x.t_ents; t_cols = x.t_cols; t_targets =
+                               (l x); t_rels = x.t_rels })) (fun _ ->
+                               targets)
+                               (set (fun t0 -> t0.t_rels) (fun f0 ->
+                                 let l = fun r -> f0 r.t_rels in
+                                 (fun x -> { t_arch = x.t_arch; t_ids =
+                                 x.t_ids; t_kinds = x.t_kinds; t_len =
+                                 x.t_len; t_cap = x.t_cap; t_free = x.t_free;
+                                 t_ents = x.t_ents; t_cols = x.t_cols;
+                                 t_targets = x.t_targets; t_rels = (l x) }))
+                                 (fun _ -> rels) t)))) (fun _ -> ret f)))
+                  (fun tid ->
+                  bind (getT tid) (fun t ->
+                    bind (modA aid (fun a0 -> arch_add_table a0 tid t))
+                      (fun _ ->
+                      bind (cache_add_table tid t a.a_mask) (fun _ -> ret tid)))))))))))
 
 (** val get_or_create_table : nat -> rel list -> nat mW **)
 
@@ -2334,27 +2401,6 @@ let get_index e =
        | Some t -> ret (t, r)
        | None -> fail EIndex)
     | None -> fail EIndex)
-
-(** val register_targets : rel list -> unit mW **)
-
-let register_targets rels =
-  forM_ rels (fun r ->
-    bind get (fun s ->
-      bind (guard (Nat.ltb (fst (snd r)) (length s.w_istarget)) EIndex)
-        (fun _ ->
-        modify (fun s0 ->
-          set (fun w0 -> w0.w_istarget) (fun f ->
-            let l = fun r0 -> f r0.w_istarget in
-            (fun x -> { w_cfg = x.w_cfg; w_reg = x.w_reg; w_pool = x.w_pool;
-            w_index = x.w_index; w_istarget = (l x); w_archs = x.w_archs;
-            w_tables = x.w_tables; w_relarchs = x.w_relarchs; w_compindex =
-            x.w_compindex; w_archcount = x.w_archcount; w_version =
-            x.w_version; w_cheap = x.w_cheap; w_centries = x.w_centries;
-            w_cpool = x.w_cpool; w_lock = x.w_lock; w_obs = x.w_obs;
-            w_olists = x.w_olists; w_oagg = x.w_oagg; w_opool = x.w_opool;
-            w_ototal = x.w_ototal; w_omax = x.w_omax; w_filters =
-            x.w_filters; w_queries = x.w_queries; w_res = x.w_res; w_issued =
-            x.w_issued; w_log = x.w_log })) (upd (fst (snd r)) true) s0))))
 
 (** val pool_getM : ent mW **)
 
@@ -4466,79 +4512,69 @@ let w_exchange_batch fi brels add0 rem rels vals =
   bind check_locked (fun _ ->
     bind (guard (negb ((&&) (is_nil add0) (is_nil rem))) ENoComps) (fun _ ->
       bind lockM (fun l ->
-        bind (get_batch_tables fi brels) (fun tables ->
-          bind
-            (let rec go tabs acc rr =
-               match tabs with
-               | [] -> ret (acc, rr)
-               | tid :: rest ->
-                 bind (getT tid) (fun t ->
-                   if Nat.eqb t.t_len O
-                   then go rest acc rr
-                   else bind (arch_mask_of_table tid) (fun om ->
-                          bind (find_or_create_table tid add0 rem rels om)
-                            (fun r ->
-                            let (p0, removed) = r in
-                            let (p1, _) = p0 in
-                            let (ntid, _) = p1 in
-                            go rest (app acc (((tid, ntid), t.t_len) :: []))
-                              ((||) rr removed))))
-             in go tables [] false) (fun bt ->
-            let (batches, rel_removed) = bt in
-            bind
-              (whenM (negb (is_nil rem))
-                (bind get (fun s ->
-                  bind
-                    (whenM (has_obs s evRemoveComponents)
-                      (forM_ batches (fun b ->
-                        let (p0, len) = b in
-                        let (otid, ntid) = p0 in
-                        bind (arch_mask_of_table otid) (fun om ->
-                          bind (arch_mask_of_table ntid) (fun nm ->
-                            bind (rows_of otid O len) (fun es ->
-                              fire_rows (fun e eo ->
-                                fire_remove evRemoveComponents e om nm eo) es
-                                true)))))) (fun _ ->
-                    bind get (fun s0 ->
-                      whenM ((&&) rel_removed (has_obs s0 evRemoveRelations))
-                        (forM_ batches (fun b ->
-                          let (p0, len) = b in
-                          let (otid, ntid) = p0 in
-                          bind (arch_mask_of_table otid) (fun om ->
-                            bind (arch_mask_of_table ntid) (fun nm ->
-                              bind (rows_of otid O len) (fun es ->
-                                fire_rows (fun e eo ->
-                                  fire_remove evRemoveRelations e om nm eo)
-                                  es true)))))))))) (fun _ ->
+        bind
+          (with_deferred_unlock l
+            (bind (get_batch_tables fi brels) (fun tables ->
               bind
-                (mapM batches (fun b ->
-                  let (p0, _) = b in
-                  let (otid, ntid) = p0 in
-                  bind (exchange_table otid ntid rels) (fun sl ->
-                    let (start, len) = sl in
-                    bind
-                      (forM_ (seq start len) (fun i ->
-                        batch_callback ntid vals i)) (fun _ ->
-                      ret (((otid, ntid), start), len))))) (fun moved ->
+                (let rec go tabs acc rr =
+                   match tabs with
+                   | [] -> ret (acc, rr)
+                   | tid :: rest ->
+                     bind (getT tid) (fun t ->
+                       if Nat.eqb t.t_len O
+                       then go rest acc rr
+                       else bind (arch_mask_of_table tid) (fun om ->
+                              bind
+                                (find_or_create_table tid add0 rem rels om)
+                                (fun r ->
+                                let (p0, removed) = r in
+                                let (p1, _) = p0 in
+                                let (ntid, _) = p1 in
+                                go rest
+                                  (app acc (((tid, ntid), t.t_len) :: []))
+                                  ((||) rr removed))))
+                 in go tables [] false) (fun bt ->
+                let (batches, rel_removed) = bt in
                 bind
-                  (whenM (negb (is_nil add0))
+                  (whenM (negb (is_nil rem))
                     (bind get (fun s ->
                       bind
-                        (whenM (has_obs s evAddComponents)
-                          (forM_ moved (fun b ->
+                        (whenM (has_obs s evRemoveComponents)
+                          (forM_ batches (fun b ->
                             let (p0, len) = b in
-                            let (p1, start) = p0 in
-                            let (otid, ntid) = p1 in
+                            let (otid, ntid) = p0 in
                             bind (arch_mask_of_table otid) (fun om ->
                               bind (arch_mask_of_table ntid) (fun nm ->
-                                bind (rows_of ntid start len) (fun es ->
+                                bind (rows_of otid O len) (fun es ->
                                   fire_rows (fun e eo ->
-                                    fire_add evAddComponents e om nm eo) es
-                                    true)))))) (fun _ ->
+                                    fire_remove evRemoveComponents e om nm eo)
+                                    es true)))))) (fun _ ->
                         bind get (fun s0 ->
                           whenM
-                            ((&&) (negb (is_nil rels))
-                              (has_obs s0 evAddRelations))
+                            ((&&) rel_removed (has_obs s0 evRemoveRelations))
+                            (forM_ batches (fun b ->
+                              let (p0, len) = b in
+                              let (otid, ntid) = p0 in
+                              bind (arch_mask_of_table otid) (fun om ->
+                                bind (arch_mask_of_table ntid) (fun nm ->
+                                  bind (rows_of otid O len) (fun es ->
+                                    fire_rows (fun e eo ->
+                                      fire_remove evRemoveRelations e om nm eo)
+                                      es true)))))))))) (fun _ ->
+                  bind
+                    (mapM batches (fun b ->
+                      let (p0, _) = b in
+                      let (otid, ntid) = p0 in
+                      bind (exchange_table otid ntid rels) (fun sl ->
+                        let (start, len) = sl in
+                        bind
+                          (forM_ (seq start len) (fun i ->
+                            batch_callback ntid vals i)) (fun _ ->
+                          ret (((otid, ntid), start), len))))) (fun moved ->
+                    whenM (negb (is_nil add0))
+                      (bind get (fun s ->
+                        bind
+                          (whenM (has_obs s evAddComponents)
                             (forM_ moved (fun b ->
                               let (p0, len) = b in
                               let (p1, start) = p0 in
@@ -4547,8 +4583,23 @@ let w_exchange_batch fi brels add0 rem rels vals =
                                 bind (arch_mask_of_table ntid) (fun nm ->
                                   bind (rows_of ntid start len) (fun es ->
                                     fire_rows (fun e eo ->
-                                      fire_add evAddRelations e om nm eo) es
-                                      true)))))))))) (fun _ -> unlockM l))))))))
+                                      fire_add evAddComponents e om nm eo) es
+                                      true)))))) (fun _ ->
+                          bind get (fun s0 ->
+                            whenM
+                              ((&&) (negb (is_nil rels))
+                                (has_obs s0 evAddRelations))
+                              (forM_ moved (fun b ->
+                                let (p0, len) = b in
+                                let (p1, start) = p0 in
+                                let (otid, ntid) = p1 in
+                                bind (arch_mask_of_table otid) (fun om ->
+                                  bind (arch_mask_of_table ntid) (fun nm ->
+                                    bind (rows_of ntid start len) (fun es ->
+                                      fire_rows (fun e eo ->
+                                        fire_add evAddRelations e om nm eo)
+                                        es true))))))))))))))) (fun _ ->
+          unlockM l))))
 
 (** val set_relations_table : nat -> nat -> rel list -> unit mW **)
 
@@ -4586,16 +4637,19 @@ let w_set_relations_batch fi brels rels =
   bind check_locked (fun _ ->
     bind (guard (negb (is_nil rels)) ENoComps) (fun _ ->
       bind lockM (fun l ->
-        bind (get_batch_tables fi brels) (fun tables ->
-          bind
-            (mapM tables (fun tid ->
-              bind (getT tid) (fun t -> ret (tid, t.t_len)))) (fun lens ->
-            bind
-              (forM_ lens (fun tl ->
-                if Nat.eqb (snd tl) O
-                then ret ()
-                else set_relations_table (fst tl) (snd tl) rels)) (fun _ ->
-              bind (register_targets rels) (fun _ -> unlockM l)))))))
+        bind
+          (with_deferred_unlock l
+            (bind (get_batch_tables fi brels) (fun tables ->
+              bind
+                (mapM tables (fun tid ->
+                  bind (getT tid) (fun t -> ret (tid, t.t_len))))
+                (fun lens ->
+                bind
+                  (forM_ lens (fun tl ->
+                    if Nat.eqb (snd tl) O
+                    then ret ()
+                    else set_relations_table (fst tl) (snd tl) rels))
+                  (fun _ -> register_targets rels))))) (fun _ -> unlockM l))))
 
 (** val arch_reset : nat -> unit mW **)
 
@@ -4982,13 +5036,6 @@ let rec nt_fail_pos s rels tables fuel pos =
                 | None -> pos)
         | None -> pos)
      | None -> pos)
-
-(** val on_err : 'a1 mW -> (w -> w) -> 'a1 mW **)
-
-let on_err m0 h s =
-  match m0 s with
-  | Ok (a, s') -> Ok (a, s')
-  | Err (e, s') -> Err (e, (h s'))
 
 (** val query_next_table : nat -> nat list -> bool -> bool mW **)
 
